@@ -440,7 +440,7 @@ export class SchemaPrintingContext {
   }
 
   hasDefinition(name: string): boolean {
-    return name in this.collectedDefinitions;
+    return Object.prototype.hasOwnProperty.call(this.collectedDefinitions, name);
   }
 
   isDefinitionInProgress(name: string): boolean {
@@ -448,7 +448,9 @@ export class SchemaPrintingContext {
   }
 
   getNamedTypeSchemaOverride(name: string): Runtype | undefined {
-    return this.namedTypeSchemaOverrides[name];
+    return Object.prototype.hasOwnProperty.call(this.namedTypeSchemaOverrides, name)
+      ? this.namedTypeSchemaOverrides[name]
+      : undefined;
   }
 
   markDefinitionInProgress(name: string): void {
